@@ -21,8 +21,16 @@ def sh(cmd, **kw):
 
 
 def demo(srcdir):
-    env = dict(os.environ, PYTASK_SRC=str(srcdir), PYTHONPATH=str(srcdir), PYTHONHASHSEED="0")
-    return sh(f"/venv/bin/python {src / 'demo.py'}", env=env, timeout=600)
+    """Some seeded changes show only under some set orders: the demo runs under hash seeds 0-3; it
+    counts as failing (non-zero) if it fails under any of them, as passing if it passes under all."""
+    last = (0, "")
+    for hs in ("0", "1", "2", "3"):
+        env = dict(os.environ, PYTASK_SRC=str(srcdir), PYTHONPATH=str(srcdir), PYTHONHASHSEED=hs)
+        rc, o = sh(f"/venv/bin/python {src / 'demo.py'}", env=env, timeout=900)
+        last = (rc, f"[PYTHONHASHSEED={hs}] " + o)
+        if rc != 0:
+            return last
+    return last
 
 sh(f"git -C /repo worktree remove --force {wt}")
 rc, o = sh(f"git -C /repo worktree add -f {wt} HEAD")
